@@ -35,6 +35,12 @@ class PoolObj:
         self._log.append(self.serial)
         return ["obj", self.serial]
 
+    OWN = "who_plain"       # a method that only this family of pool classes has (the other families have theirs)
+
+    def who_plain(self):
+        self._log.append(self.serial)
+        return ["obj", self.serial]
+
     def __getstate__(self):
         return {"serial": self.serial}
 
@@ -121,6 +127,12 @@ class PoolObjSlots:
         self._log.append(self.serial)
         return ["obj", self.serial]
 
+    OWN = "who_slots"
+
+    def who_slots(self):
+        self._log.append(self.serial)
+        return ["obj", self.serial]
+
     def __getstate__(self):
         return {"serial": self.serial}
 
@@ -135,6 +147,12 @@ class PoolObjVars:
         self._log = log
 
     def who(self):
+        self._log.append(self.serial)
+        return ["obj", self.serial]
+
+    OWN = "who_vars"
+
+    def who_vars(self):
         self._log.append(self.serial)
         return ["obj", self.serial]
 
